@@ -118,6 +118,10 @@ structure Ctx where
   /-- event::ExecutedCommand: zone of the endpoint recorded in `executions[uuid].endpoint`
       (`none`: no such execution / endpoint) -/
   execEndpointZone : Option Zone
+  /-- event::ExecuteCommand: the `endpoint` parameter names an existing endpoint other than the receiver;
+      the value is that endpoint's zone (`none`: no `endpoint` parameter, or it names the receiver ⇒ the
+      command is executed locally) -/
+  forwardZone : Option Zone
   acceptConfig : Bool
   acceptCommands : Bool
   deriving Repr, DecidableEq
@@ -203,9 +207,17 @@ def accepts (f : Forest) (m : Method) (c : Ctx) : Bool :=
   -- clusterevents.cpp:1593-1644: sender's zone is the local zone or above (:1597), the comment/downtime exists,
   -- and the sender's zone may access it (:1613, :1627)
   | .setRemovalInfo => ep && guardParent f c && c.objExists && guardAccess f c
-  -- clusterevents.cpp:913-1068 (no `endpoint` parameter or the local endpoint: local execution),
-  -- clusterevents-check.cpp:108-201: sender zone, FromZone guard :119, accept_commands :166
-  | .executeCommand => guardCommandSender f c && guardParent f c && c.acceptCommands
+  -- clusterevents.cpp:913-1068.  Sender zone :920-943.  Without `endpoint` parameter (or naming the receiver) the
+  -- command is queued for local execution, clusterevents-check.cpp:108-201: FromZone guard :119,
+  -- accept_commands :166.  With `endpoint` naming another node (:957-1062) it is FORWARDED towards that
+  -- endpoint's zone if that zone is the local zone or below it (:961); accept_commands is not consulted.
+  -- (For a forwarded command the harness keeps the child endpoints capable of ExecuteArbitraryCommand and names a
+  --  host the child zone may access, so that the two error-notice branches :972-994, :1027-1051 are not taken.)
+  | .executeCommand =>
+    guardCommandSender f c &&
+    (match c.forwardZone with
+     | none => guardParent f c && c.acceptCommands
+     | some tz => isChildOf f tz c.localZone)
   -- apilistener-filesync.cpp:296-330 (:299, :308)
   | .configUpdate => ep && guardParent f c && c.acceptConfig
   -- apilistener-configsync.cpp:42-96 (:63, :82)
